@@ -917,6 +917,19 @@ pub fn scen_tap(m: &Model, setup: &Setup, iterate_k: usize, out: &mut Out) {
         if seen.len() < 400 && seen.insert(line.clone()) {
             out.push(line);
         }
+        // exact correspondence of the implicit reasons with Model/ImplicitReason.lean
+        if let (TapKind::AnalysisReason, Some(tp), Some(q)) = (r.kind, r.trail_predicate, concl) {
+            if in_model(&tp) {
+                let mut t = String::new();
+                atom_of(tp).emit(&mut t);
+                let mut qs = String::new();
+                q.emit(&mut qs);
+                let line = format!("implicit{}{} {}", t, qs, fmt_atoms(&prem));
+                if seen.len() < 600 && seen.insert(line.clone()) {
+                    out.push(line);
+                }
+            }
+        }
     }
     out.meta(format!(
         "tap records={} propagation={} conflict={} analysis={} learned={} distinct={}",
